@@ -54,7 +54,18 @@ Templates == {
   Tp("not-a-number", FALSE, <<96,49,96,32,47,32,96,48,96>>), Tp("not-a-number", FALSE, <<96,49,96,32,47,47,32,96,48,96>>), Tp("not-a-number", FALSE, <<96,49,96,32,37,32,96,48,96>>),
   Tp("not-a-number", FALSE, <<96,48,96,32,47,32,96,48,96>>), Tp("not-a-number", FALSE, <<96,91,49,93,96,91,42,93,46,91,64,32,47,32,96,48,96,93>>), Tp("not-a-number", FALSE, <<45,96,49,96,32,47,32,96,48,46,48,96>>)
 }
-TSeq == SetToSeq(Templates)
+\* every static fault inside every syntactic context (a static fault is decided
+\* by the text alone wherever it occurs)
+StaticFaults == { Tp("invalid-arity", TRUE, <<97,98,115,40,41>>), Tp("unknown-function", TRUE, <<110,111,115,117,99,104,40,97,41>>),
+                  Tp("invalid-type", TRUE, <<115,111,114,116,95,98,121,40,97,44,32,98,41>>), Tp("invalid-value", TRUE, <<120,91,58,58,48,93>>),
+                  Tp("invalid-type", TRUE, <<97,98,115,40,38,97,41>>), Tp("invalid-arity", TRUE, <<108,101,110,103,116,104,40,97,44,32,98,41>>) }
+Contexts == { <<<<108,101,116,32,36,118,32,61,32>>, <<32,105,110,32,36,118>>>>, <<<<108,101,116,32,36,118,32,61,32,97,32,105,110,32>>, <<>>>>, <<<<108,101,116,32,36,118,32,61,32,97,44,32,36,119,32,61,32>>, <<32,105,110,32,36,119>>>>,
+              <<<<91>>, <<93>>>>, <<<<91,97,44,32>>, <<93>>>>, <<<<123,107,58,32>>, <<125>>>>, <<<<97,91,63>>, <<93>>>>, <<<<97,98,115,40>>, <<41>>>>,
+              <<<<97,32,124,32>>, <<>>>>, <<<<97,32,124,124,32>>, <<>>>>, <<<<97,32,38,38,32>>, <<>>>>, <<<<33>>, <<>>>>, <<<<40>>, <<41>>>>,
+              <<<<115,111,114,116,95,98,121,40,97,44,32,38>>, <<41>>>>, <<<<109,97,112,40,38>>, <<44,32,97,41>>>>, <<<<>>, <<32,61,61,32,97>>>>, <<<<97,46,91>>, <<93>>>>,
+              <<<<97,91,42,93,46,123,107,58,32>>, <<125>>>>, <<<<110,111,116,95,110,117,108,108,40,97,44,32>>, <<41>>>>, <<<<>>, <<32,124,32,97>>>>, <<<<96,49,96,32,43,32>>, <<>>>>, <<<<45>>, <<>>>> }
+InContext == { Tp(f.c, TRUE, c[1] \o f.s \o c[2]) : f \in StaticFaults, c \in Contexts }
+TSeq == SetToSeq(Templates \cup InContext)
 VARIABLES bucket, idx
 NB == 32
 Init == bucket \in 0..(NB - 1) /\ idx = 0
